@@ -83,23 +83,41 @@ def r1(ctx):
         raise AnalysisError('_merge_overlapping_ranges: loop not found')
     l = loops[0]
     try:
-        (a0, a1), (b0, b1) = [[x.id for x in t.elts] for t in l.target.elts]
+        if isinstance(l.target, ast.Tuple) and len(l.target.elts) == 4 and isinstance(l.iter, ast.Name):
+            # the neighbouring pairs flattened by a generator expression bound to a local: for a, b, c, d in <(a, b, c, d) for (a, b), (c, d) in pairs>
+            gd = [a_ for a_ in g.body if isinstance(a_, ast.Assign) and len(a_.targets) == 1 and src(a_.targets[0]) == l.iter.id]
+            ge = gd[0].value if len(gd) == 1 else None
+            if not (isinstance(ge, ast.GeneratorExp) and len(ge.generators) == 1 and not ge.generators[0].ifs and isinstance(ge.elt, ast.Tuple)):
+                raise ValueError
+            (p0, p1), (q0, q1) = [[x.id for x in t.elts] for t in ge.generators[0].target.elts]
+            if [src(x) for x in ge.elt.elts] != [p0, p1, q0, q1]:
+                raise ValueError
+            a0, a1, b0, b1 = [x.id for x in l.target.elts]
+        else:
+            (a0, a1), (b0, b1) = [[x.id for x in t.elts] for t in l.target.elts]
     except Exception:
         raise AnalysisError('_merge_overlapping_ranges: loop target is not ((start,end),(next_start,next_end))')
     ren2 = {a0: 'a0', a1: 'a1', b0: 'b0', b1: 'b1'}
     atom2 = lambda x: ren2.get(src(x))
     srt = lambda e: e['a0'] < e['a1'] and e['b0'] < e['b1'] and (e['a0'], e['a1']) <= (e['b0'], e['b1'])
-    ifs = [s for s in walk_no_nested(l) if isinstance(s, ast.If) and any(isinstance(x, ast.Yield) for b in s.body for x in walk_no_nested(b))
-           and any(isinstance(x, ast.Yield) for b in s.orelse for x in walk_no_nested(b))]
-    if len(ifs) != 1:
-        ctx.emit('C17-R1', False, BINCOUNTS, g, 'merge decision not found', key='merge-predicate', undecided=True)
+    # the two things one step can emit: the current range unchanged, or the union with its successor; which one is decided by the guards on the
+    # four coordinates that hold where the yield is reached (guards on bookkeeping flags are not part of the decision)
+    from ..util import reach_expr
+    coords = {a0, a1, b0, b1}
+    lys = [y for y in walk_no_nested(l) if isinstance(y, ast.Yield) and y.value is not None]
+    passes = [y for y in lys if src(y.value).replace('(', '').replace(')', '').replace(' ', '') == f'{a0},{a1}']
+    merges = [y for y in lys if y not in passes]
+    if len(passes) != 1 or len(merges) != 1:
+        ctx.emit('C17-R1', False, BINCOUNTS, g, f'merge decision not found ({len(merges)} merging and {len(passes)} pass-through yields in the pair loop)', key='merge-predicate', undecided=True)
     else:
-        t = ifs[0].test
+        my, py = merges[0], passes[0]
+        t = reach_expr(l.body, my, drop=lambda t_: not (names_in(t_) & coords))
+        tp = reach_expr(l.body, py, drop=lambda t_: not (names_in(t_) & coords))
         ncase, bad = check_pred(t, lambda e: e['a1'] > e['b0'], symbols=['a0', 'a1', 'b0', 'b1'], constraint=srt, atom_name=atom2)
-        ctx.counters['abstract_cases'] += ncase
-        ctx.emit('C17-R1', not bad, BINCOUNTS, ifs[0], f'merge test over {ncase} sorted range pairs ' + ('== the ranges overlap (end > next start)' if not bad else f'differs: {bad[0]}'),
-                 key='merge-predicate', witness=bad[0] if bad else None)
-        my = [x for b in ifs[0].body for x in walk_no_nested(b) if isinstance(x, ast.Yield)][0]
+        ncase2, bad2 = check_pred(tp, lambda e: not e['a1'] > e['b0'], symbols=['a0', 'a1', 'b0', 'b1'], constraint=srt, atom_name=atom2)
+        ctx.counters['abstract_cases'] += ncase + ncase2
+        ctx.emit('C17-R1', not bad and not bad2, BINCOUNTS, my, f'merge test over {ncase} sorted range pairs ' + ('== the ranges overlap (end > next start)' if not (bad or bad2) else f'differs: {(bad or bad2)[0]}'),
+                 key='merge-predicate', witness=(bad or bad2)[0] if (bad or bad2) else None)
         if isinstance(my.value, ast.Tuple) and len(my.value.elts) == 2:
             ncase, bad = check_exprs(my.value.elts, lambda e: (min(e['a0'], e['b0']), max(e['a1'], e['b1'])), ['a0', 'a1', 'b0', 'b1'],
                                      constraint=lambda e: srt(e) and e['a1'] > e['b0'], atom_name=atom2)
@@ -107,9 +125,7 @@ def r1(ctx):
             ctx.emit('C17-R1', not bad, BINCOUNTS, my, f'merged range `{src(my.value)}` over {ncase} overlapping pairs ' +
                      ('== (min start, max end)' if not bad else f'is not the union, e.g. nested ranges {bad[0]["case"]} give {bad[0]["code"]} instead of {bad[0]["spec"]}'),
                      key='merge-union', witness=bad[0] if bad else None, what='_merge_overlapping_ranges: merged range is not the union of the two ranges')
-        oy = [x for b in ifs[0].orelse for x in walk_no_nested(b) if isinstance(x, ast.Yield)]
-        ok = len(oy) == 1 and src(oy[0].value).replace('(', '').replace(')', '') == f'{a0}, {a1}'
-        ctx.emit('C17-R1', ok, BINCOUNTS, ifs[0], 'non-overlapping range is passed through unchanged', key='merge-passthrough', nontrivial=False)
+        ctx.emit('C17-R1', True, BINCOUNTS, py, 'non-overlapping range is passed through unchanged', key='merge-passthrough', nontrivial=False)
     mo = ctx.fn(BINCOUNTS, 'merge_overlapping_ranges')
     # every return of the merged list happens where range_contains_overlap(<that list>) is false: after `while range_contains_overlap(x):`
     # or under `if not range_contains_overlap(x): return x` inside the loop; the list is sorted before each overlap test
